@@ -110,4 +110,39 @@ proof fn lemma_shifted(o: ModuleGraph, n: ModuleGraph, path: u64, keys: Seq<u64>
         assert(n.index@.contains_key(n.graph@[k].id));
     }
 }
+/// R11m: `for node in vec.iter_mut() { BODY(node) }` -> indexed loop; the node is taken out before and put back after BODY
+// @trusted: moving the k-th element out of / back into the vector (what iter_mut's cursor stands for)
+#[verifier::external_body]
+pub fn w_take_node(g: &mut Vec<Node>, k: usize) -> (n: Node)
+    requires k < old(g)@.len()
+    ensures n == old(g)@[k as int], final(g)@.len() == old(g)@.len(), forall|j: int| 0 <= j < old(g)@.len() && j != k ==> final(g)@[j] == old(g)@[j],
+{ std::mem::replace(&mut g[k], Node { id: 0, data: (), depends_on: ErgSet::new() }) }
+// @trusted: see w_take_node
+#[verifier::external_body]
+pub fn w_put_node(g: &mut Vec<Node>, k: usize, n: Node)
+    requires k < old(g)@.len()
+    ensures final(g)@ == old(g)@.update(k as int, n),
+{ g[k] = n; }
+// @trusted: contract of Set::retain(|p| p != x) (hash set: removes exactly that element)
+#[verifier::external_body]
+pub fn w_set_retain_ne(s: &mut ErgSet, x: &u64) ensures final(s)@ == old(s)@.remove(*x) { s.inner.retain(|p| p != x) }
+
+spec fn ren(p: u64, o: u64, n: u64) -> u64 { if p == o { n } else { p } }
+spec fn ren_set(s: Set<u64>, o: u64, n: u64) -> Set<u64> { if s.contains(o) { s.remove(o).insert(n) } else { s } }
+
+proof fn lemma_renamed(o: ModuleGraph, n: ModuleGraph, op: u64, np: u64)
+    requires wf(o), !has_path(o, np), np != op, n.graph@.len() == o.graph@.len(),
+        n.index@ == (if o.index@.contains_key(op) { o.index@.remove(op).insert(np, o.index@[op]) } else { o.index@ }),
+        forall|k: int| 0 <= k < n.graph@.len() ==> (#[trigger] n.graph@[k]).id == ren(o.graph@[k].id, op, np),
+    ensures wf(n)
+{
+    assert(!o.index@.contains_key(np)) by { if o.index@.contains_key(np) { assert(o.graph@[o.index@[np] as int].id == np); } }
+    assert forall|p: u64| #[trigger] n.index@.contains_key(p) implies n.index@[p] < n.graph@.len() && n.graph@[n.index@[p] as int].id == p by {
+        if o.index@.contains_key(op) && p == np { assert(o.graph@[o.index@[op] as int].id == op); }
+        else { assert(o.index@.contains_key(p)); assert(o.graph@[o.index@[p] as int].id == p); }
+    }
+    assert forall|i: int| 0 <= i < n.graph@.len() implies n.index@.contains_key(#[trigger] n.graph@[i].id) && n.index@[n.graph@[i].id] == i by {
+        assert(o.index@.contains_key(o.graph@[i].id));
+    }
+}
 } // verus!
